@@ -452,6 +452,25 @@ class _FakeTimeModule:
             return _real_time.monotonic()
         return w.loop.now_us / 1_000_000
 
+    # every other way of reading a clock is virtual too (the library documents that its clock "may change in the future")
+    def monotonic_ns(self) -> int:
+        w = CURRENT
+        return _real_time.monotonic_ns() if w is None else w.loop.now_us * 1000
+
+    def perf_counter(self) -> float:
+        return self.monotonic()
+
+    def perf_counter_ns(self) -> int:
+        return self.monotonic_ns()
+
+    def time(self) -> float:
+        w = CURRENT
+        return _real_time.time() if w is None else 1_700_000_000.0 + w.loop.now_us / 1_000_000
+
+    def time_ns(self) -> int:
+        w = CURRENT
+        return _real_time.time_ns() if w is None else 1_700_000_000_000_000_000 + w.loop.now_us * 1000
+
     def __getattr__(self, name: str) -> Any:
         return getattr(_real_time, name)
 
